@@ -445,7 +445,7 @@ impl Property for C02 {
         }
         ctx.label(if any_ok { "some-success" } else { "never-succeeds" });
         // part B uses the rest of the tape (an exhausted tape skips it, so older replay tapes keep their meaning)
-        if t.chance(1, 2) {
+        if crate::engine::gen_version() >= 2 && t.chance(1, 2) {
             if let Some(c) = gen_block_case(t) {
                 ctx.label("block:case");
                 let (inl_src, _) = render(&c.inlined);
